@@ -8,6 +8,7 @@ import (
 	"fmt"
 	"math/rand"
 	"os"
+	"sort"
 	"strings"
 	"testing"
 
@@ -82,7 +83,8 @@ func c36perms(n int, f func(p []int)) {
 
 func TestVerifC36Canonicalize(t *testing.T) {
 	thorough := os.Getenv("VERIF_TIER") == "thorough"
-	evals, lists, tiedLists := 0, 0, 0
+	evals, lists, tiedLists, nontrivial := 0, 0, 0, 0
+	seenList := map[string]bool{}
 	fails := map[string]int{}
 	var samples []string
 	fail := func(c, d string) {
@@ -106,6 +108,20 @@ func TestVerifC36Canonicalize(t *testing.T) {
 	}
 	checkList := func(list []c36atom, perms func(f func(order []int))) {
 		lists++
+		keyParts := make([]string, len(list))
+		for i, a := range list {
+			keyParts[i] = a.String()
+		}
+		sort.Strings(keyParts)
+		if k := strings.Join(keyParts, ""); !seenList[k] {
+			seenList[k] = true
+			for _, a := range list[1:] {
+				if a != list[0] { // non-trivial: at least two different diagnostics to put in order
+					nontrivial++
+					break
+				}
+			}
+		}
 		isTied := tied(list)
 		if isTied {
 			tiedLists++
@@ -208,5 +224,5 @@ func TestVerifC36Canonicalize(t *testing.T) {
 	for len(samples) < 3 {
 		samples = append(samples, "")
 	}
-	fmt.Printf("BOUNDED: {\"evaluations\":%d,\"distinct\":%d,\"rule\":\"every pair over 192 diagnostics (2 files x 2 stages x 3 spans x tag in {none,t} x 2 messages x {error,warning} x {no note, a note}) and every triple over 32 of them, in every input order, with and without KeepDuplicates (%d lists), plus %d seeded random lists of 4..43 diagnostics in 24 shuffles each: Canonicalize gives the same list for every order and is idempotent; %d of the lists hold two diagnostics that agree on all six sort keys yet differ (attributed to finding F8 when they fail)\",\"exhaustive\":true,\"bound\":\"lists of <=3 diagnostics exhaustive; longer lists sampled\",\"samples\":[%q,%q,%q]}\n", evals, lists, exh, nr, tiedLists, samples[0], samples[1], samples[2])
+	fmt.Printf("BOUNDED: {\"evaluations\":%d,\"distinct\":%d,\"rule\":\"every pair over 192 diagnostics (2 files x 2 stages x 3 spans x tag in {none,t} x 2 messages x {error,warning} x {no note, a note}) and every triple over 32 of them, in every input order, with and without KeepDuplicates (%d lists), plus %d seeded random lists of 4..43 diagnostics in 24 shuffles each: Canonicalize gives the same list for every order and is idempotent; %d of the lists hold two diagnostics that agree on all six sort keys yet differ (attributed to finding F8 when they fail); distinct_nontrivial counts the distinct multisets holding at least two different diagnostics\",\"exhaustive\":true,\"bound\":\"lists of <=3 diagnostics exhaustive; longer lists sampled\",\"samples\":[%q,%q,%q]}\n", evals, nontrivial, exh, nr, tiedLists, samples[0], samples[1], samples[2])
 }
